@@ -369,6 +369,7 @@ Definition run_words (ws : list string) : string :=
       | None => "NONE" end
   | ["nameenc"; name] => show_opt (enc_labels (hexlist_of_string name))
   | ["txtenc"; h] => show_opt (enc_txt (hex_or_empty h))
+  | ["txtdec"; h] => match dec_txt (hex_or_empty h) with Some t => "OK " ++ dash_hex t | None => "NONE" end
   | ["rrsigenc"; ty; alg; labels; ttl; ex; inc; kt; name; sig] =>
       show_opt (enc_rrsig (z_of_string ty) (z_of_string alg) (z_of_string labels) (z_of_string ttl) (z_of_string ex) (z_of_string inc)
                           (z_of_string kt) (hexlist_of_string name) (hex_or_empty sig))
